@@ -31,7 +31,9 @@ type c07Case struct {
 
 const c07ClockLayout = "2006/01/02 15:04"
 
-func c07Instant(day, min int) string { return fmt.Sprintf("%s %02d:%02d", vFmtDay(day, ""), min/60, min%60) }
+func c07Instant(day, min int) string {
+	return fmt.Sprintf("%s %02d:%02d", vFmtDay(day, ""), min/60, min%60)
+}
 
 const c07Absent = -1000
 
